@@ -1,0 +1,123 @@
+//! Verification hooks (only compiled with `--cfg brood_verif`).
+//!
+//! Read-only structural dump of a `World` as plain data, accessors for entity identifiers, and a
+//! fork/join shim that lets an external harness observe and drive the `rayon::join` calls made
+//! while running a schedule. None of this changes behavior when no hook is installed.
+
+use crate::entity;
+use alloc::vec::Vec;
+
+/// Plain-data description of one allocator slot.
+#[derive(Clone, Debug, Eq, PartialEq)]
+pub struct SlotDump {
+    /// The slot's current generation.
+    pub generation: u64,
+    /// `Some((archetype identifier address, row index))` if the slot is active.
+    pub location: Option<(usize, usize)>,
+}
+
+/// Plain-data description of one archetype table.
+#[derive(Clone, Debug, Eq, PartialEq)]
+pub struct ArchetypeDump {
+    /// Address of the identifier buffer (used as the archetype's identity).
+    pub identifier_address: usize,
+    /// The identifier's bytes.
+    pub identifier_bytes: Vec<u8>,
+    /// Number of rows.
+    pub length: usize,
+    /// Entity identifiers stored with the rows, as `(index, generation)`.
+    pub entity_identifiers: Vec<(usize, u64)>,
+    /// Capacity of the entity identifier column.
+    pub entity_identifiers_capacity: usize,
+    /// Per component column: (address, capacity).
+    pub columns: Vec<(usize, usize)>,
+}
+
+/// Plain-data description of a `World`'s internal structure.
+#[derive(Clone, Debug, Eq, PartialEq)]
+pub struct Dump {
+    /// `World::len`.
+    pub len: usize,
+    /// Number of components in the registry.
+    pub registry_len: usize,
+    /// Allocator slots, in index order.
+    pub slots: Vec<SlotDump>,
+    /// Allocator free list, in order.
+    pub free: Vec<usize>,
+    /// Archetype tables, in table iteration order.
+    pub archetypes: Vec<ArchetypeDump>,
+    /// Number of entries in the type id lookup, and the identifier addresses they point at.
+    pub type_id_lookup: Vec<usize>,
+    /// Entries of the foreign identifier lookup: (key bytes address, key bytes, target address).
+    pub foreign_identifier_lookup: Vec<(usize, Vec<u8>, usize)>,
+}
+
+/// Returns `(index, generation)` of an entity identifier.
+#[must_use]
+pub fn identifier_parts(identifier: entity::Identifier) -> (usize, u64) {
+    (identifier.index, identifier.generation)
+}
+
+/// Creates an entity identifier from raw parts.
+#[must_use]
+pub fn identifier_from_parts(index: usize, generation: u64) -> entity::Identifier {
+    entity::Identifier::new(index, generation)
+}
+
+/// Stand-in for the `rayon` crate inside `system::schedule::stage`.
+#[cfg(feature = "rayon")]
+pub mod rayon_shim {
+    use core::sync::atomic::{
+        AtomicUsize,
+        Ordering,
+    };
+
+    /// The signature of an installed join hook. The hook must run both closures exactly once
+    /// before returning.
+    pub type JoinHook = fn(&mut (dyn FnMut() + Send), &mut (dyn FnMut() + Send));
+
+    static HOOK: AtomicUsize = AtomicUsize::new(0);
+
+    /// Installs (or, with `None`, removes) the process-wide join hook.
+    pub fn set_join_hook(hook: Option<JoinHook>) {
+        HOOK.store(hook.map_or(0, |hook| hook as usize), Ordering::SeqCst);
+    }
+
+    /// `rayon::join`, routed through the installed hook if there is one.
+    pub fn join<A, B, RA, RB>(oper_a: A, oper_b: B) -> (RA, RB)
+    where
+        A: FnOnce() -> RA + Send,
+        B: FnOnce() -> RB + Send,
+        RA: Send,
+        RB: Send,
+    {
+        let raw = HOOK.load(Ordering::SeqCst);
+        if raw == 0 {
+            return ::rayon::join(oper_a, oper_b);
+        }
+        // SAFETY: `raw` was stored from a valid `JoinHook` function pointer.
+        let hook: JoinHook = unsafe { core::mem::transmute::<usize, JoinHook>(raw) };
+
+        let mut oper_a = Some(oper_a);
+        let mut oper_b = Some(oper_b);
+        let mut result_a = None;
+        let mut result_b = None;
+        {
+            let mut run_a = || {
+                if let Some(oper) = oper_a.take() {
+                    result_a = Some(oper());
+                }
+            };
+            let mut run_b = || {
+                if let Some(oper) = oper_b.take() {
+                    result_b = Some(oper());
+                }
+            };
+            hook(&mut run_a, &mut run_b);
+        }
+        match (result_a, result_b) {
+            (Some(result_a), Some(result_b)) => (result_a, result_b),
+            _ => panic!("join hook did not run both closures"),
+        }
+    }
+}
